@@ -836,6 +836,14 @@ impl Exec {
                 }
                 self.open_front(*front)?;
                 self.check_names()?;
+                if self.assigner_off && !self.kept_configs.is_empty() {
+                    // a keyspace with an unassigned name, created in this session from options that were cloned from a
+                    // filtered keyspace in an earlier session
+                    if let Some(ks) = [5u8, 7, 9].into_iter().find(|k| !self.model.ks.contains_key(k)) {
+                        self.apply_inner(&Op::CreateKs { ks, cfg: 1 })?;
+                        self.stats.inc("op.create_ks");
+                    }
+                }
             }
             Op::Sweep { ks, deep } => {
                 if self.model.ks.contains_key(ks) {
